@@ -1,10 +1,12 @@
 package props
 
 import (
+	"fmt"
 	"go/ast"
 	"go/constant"
 	"go/token"
 	"go/types"
+	"os"
 	"sort"
 	"strconv"
 	"strings"
@@ -1073,6 +1075,7 @@ func c12R7(p *engine.Prog, r *engine.Report) {
 		r.Floor("C12-R9", 60, "functions that take a lock (repo-wide)")
 	}
 	c12R8(p, r)
+	c12R10(p, r)
 }
 
 func itoa(i int64) string { return strconv.FormatInt(i, 10) }
@@ -1155,4 +1158,42 @@ func c12R8(p *engine.Prog, r *engine.Report) {
 	}
 	r.Floor("C12-R8", 3, "chain-header dereferences")
 	_ = n
+}
+
+// ---------------------------------------------------------------- R10
+// Belief contradiction (Engler et al.): a pointer that is tested for nil is not dereferenced at a
+// point that dominates the test. Either the test is dead or the dereference can panic on the
+// input the test was written for. Repo-wide, one frozen exception.
+func c12R10(p *engine.Prog, r *engine.Report) {
+	// keyed by function and tested value: another contradiction in the same function is still reported
+	exempt := map[string]string{
+		"VmImpl.deploy|blockchain/attachments.ParseDeployContractAttachment(param:*github.com/idena-network/idena-go/blockchain/types.Transaction)": "attach.CodeHash is read before `attach == nil`; the DeployContractTx validator rejects an unparsable attachment before the VM runs (C12-R3 'validator-backed'), so the late test is dead code, not a reachable panic",
+		"Blockchain.ValidateHeader|param:*github.com/idena-network/idena-go/blockchain/types.Header.ProposedHeader":                                 "the trailing `header.ProposedHeader != nil` (unknown-upgrade test) is dead: control gets there only with EmptyBlockHeader == nil, and a header from the network passed Header.IsValid() (exactly the rule C12-R5a: one arm present)",
+	}
+	n, scanned := 0, 0
+	for _, f := range p.AllFuncs() {
+		if pk := engine.FuncPkg(f); pk == nil || !engine.IsRepoPkg(pk) || f.Synthetic != "" || f.Blocks == nil || isTestish(p.Pos(f.Pos())) {
+			continue
+		}
+		if strings.HasSuffix(p.Pos(f.Pos()), ".pb.go") || strings.Contains(p.Pos(f.Pos()), ".pb.go:") {
+			continue
+		}
+		scanned++
+		for _, c := range derefBeforeNilTest(f) {
+			n++
+			key := engine.RelName(f) + "|dereference dominates the nil test of the same value"
+			if os.Getenv("VERIF_VERBOSE") != "" {
+				fmt.Fprintln(os.Stderr, "C12-R10 candidate:", engine.RelName(f)+"|"+renderVal(c.Val, 0))
+			}
+			if why, ok := exempt[engine.RelName(f)+"|"+renderVal(c.Val, 0)]; ok {
+				r.OK("C12-R10", uniq(r, key+" (frozen exception)"), p.InstrPos(c.Deref), why)
+				continue
+			}
+			r.Bad("C12-R10", uniq(r, key), p.InstrPos(c.Deref), "the pointer tested for nil at "+p.InstrPos(c.Test)+" is dereferenced here first: for the input the test was written for (an absent optional part of a decoded message) this is a nil dereference, not the intended refusal")
+		}
+	}
+	r.OK("C12-R10", "repo|functions scanned for dereference-before-test", "", itoa(int64(scanned))+" functions, "+itoa(int64(n))+" contradiction(s)")
+	if scanned < 2000 {
+		r.Und("C12-R10", "repo|scan size", "", "only "+itoa(int64(scanned))+" functions scanned")
+	}
 }
